@@ -420,6 +420,88 @@ fn misc_part(rep: &mut Report, thorough: bool) {
             }
         }
     }
+    // FM demodulators. QuadratureDemod: y[n] = gain * arg(x[n] conj(x[n-1])),
+    // x[-1] = 0. FastFM (Lyons): y[n] = (Im x[n] - Im x[n-2]) Re x[n-1]
+    // - (Re x[n] - Re x[n-2]) Im x[n-1], zero history. arg(0) is left open by
+    // the definition; +pi and -pi are the same angle.
+    {
+        let mut sigs: Vec<(String, Vec<Complex>)> = vec![];
+        for (k, w) in [0.0f64, 0.1, 0.7, 1.5, 3.0, -0.4, -2.9, std::f64::consts::PI].iter().enumerate() {
+            sigs.push((format!("phasor step {w}"), (0..24).map(|i| {
+                let p = w * i as f64 + 0.3 * k as f64;
+                Complex::new((p.cos() * (1.0 + 0.1 * (i % 3) as f64)) as f32, (p.sin() * (1.0 + 0.1 * (i % 3) as f64)) as f32)
+            }).collect()));
+        }
+        // Real-valued signals that change sign: the product is a negative
+        // real number, the angle is pi.
+        sigs.push(("real square wave".into(), (0..24).map(|i| Complex::new(if (i / 3) % 2 == 0 { 0.5 } else { -0.5 }, 0.0)).collect()));
+        sigs.push(("nyquist tone".into(), (0..24).map(|i| Complex::new(if i % 2 == 0 { 1.0 } else { -1.0 }, 0.0)).collect()));
+        sigs.push(("imaginary square wave".into(), (0..24).map(|i| Complex::new(0.0, if (i / 2) % 2 == 0 { 0.25 } else { -0.75 })).collect()));
+        sigs.push(("silence then carrier".into(), (0..24).map(|i| if i < 8 { Complex::new(0.0, 0.0) } else { Complex::new(0.7, 0.0) }).collect()));
+        verif::set_default_stream_size(Some(PAGE));
+        for (name, x) in &sigs {
+            for gain in [1.0f32, 0.5, -2.0] {
+                let (src, o) = VectorSource::new(x.clone());
+                let (b, o) = QuadratureDemod::new(o, gain);
+                let sink = VectorSink::new(o, usize::MAX / 2);
+                let hook = sink.hook();
+                rep.evaluations += 1;
+                rep.distinct_nontrivial += 1;
+                let case = json!({"part": "quadrature_demod", "signal": name, "gain": gain});
+                if let Err(m) = run_block_f32(vec![Box::new(src), Box::new(b), Box::new(sink)]) {
+                    viol(rep, "QuadratureDemod", "run", format!("{case}: {m}"), case);
+                    continue;
+                }
+                let got = hook.data().samples().to_vec();
+                if got.len() != x.len() {
+                    viol(rep, "QuadratureDemod", "count", format!("{case}: {} outputs for {} inputs", got.len(), x.len()), case);
+                    continue;
+                }
+                for n in 1..x.len() {
+                    let (a, b) = (x[n], x[n - 1]);
+                    let re = a.re as f64 * b.re as f64 + a.im as f64 * b.im as f64;
+                    let im = a.im as f64 * b.re as f64 - a.re as f64 * b.im as f64;
+                    if re == 0.0 && im == 0.0 {
+                        continue;
+                    }
+                    let want = gain as f64 * im.atan2(re);
+                    let g = got[n] as f64;
+                    let at_pi = (im.atan2(re).abs() - std::f64::consts::PI).abs() < 1e-6;
+                    let ok = (g - want).abs() < 2e-5 * (1.0 + want.abs()) || (at_pi && (g.abs() - want.abs()).abs() < 2e-5 * (1.0 + want.abs()));
+                    if !ok {
+                        viol(rep, "QuadratureDemod", "identity", format!("{case}: y[{n}] = {g}, gain * arg(x[n] conj x[n-1]) = {want}"), case.clone());
+                        break;
+                    }
+                }
+            }
+            let (src, o) = VectorSource::new(x.clone());
+            let (b, o) = FastFM::new(o);
+            let sink = VectorSink::new(o, usize::MAX / 2);
+            let hook = sink.hook();
+            rep.evaluations += 1;
+            rep.distinct_nontrivial += 1;
+            let case = json!({"part": "fastfm", "signal": name});
+            if let Err(m) = run_block_f32(vec![Box::new(src), Box::new(b), Box::new(sink)]) {
+                viol(rep, "FastFM", "run", format!("{case}: {m}"), case);
+                continue;
+            }
+            let got = hook.data().samples().to_vec();
+            if got.len() != x.len() {
+                viol(rep, "FastFM", "count", format!("{case}: {} outputs for {} inputs", got.len(), x.len()), case);
+                continue;
+            }
+            let z = Complex::new(0.0, 0.0);
+            for n in 0..x.len() {
+                let q1 = if n >= 1 { x[n - 1] } else { z };
+                let q2 = if n >= 2 { x[n - 2] } else { z };
+                let want = (x[n].im as f64 - q2.im as f64) * q1.re as f64 - (x[n].re as f64 - q2.re as f64) * q1.im as f64;
+                if (got[n] as f64 - want).abs() > 1e-5 * (1.0 + want.abs()) {
+                    viol(rep, "FastFM", "identity", format!("{case}: y[{n}] = {}, Lyons' differentiator gives {want}", got[n]), case.clone());
+                    break;
+                }
+            }
+        }
+    }
     // Low-pass taps: symmetric, unit DC gain.
     let rates = if thorough { vec![8000.0f32, 44100.0, 48000.0, 50000.0, 1e6] } else { vec![8000.0f32, 50000.0] };
     for (wname, wt) in [
@@ -509,8 +591,8 @@ pub fn run(tier: &str, shard: Option<&str>) -> Report {
     rep.rule = "declared finite grids: FIR kernel and block for tap counts 1..40, 63..65, 127..129, 200 (every residue mod 8) x \
         tap sets {every unit vector, all-ones, mixed} x inputs {unit impulse at every position, step, alternating, ramp, \
         sinusoid} plus all sequences up to length 5 over {-1,0,1}; decimations 1..8; FFT filters for tap counts up to 33 (64) \
-        over the same bases against direct f64 convolution and against the FIR output; IIR recurrence, Hilbert identity, \
-        low-pass symmetry and DC gain for four windows x rate/cutoff/width grid; FftStream against an O(n^2) DFT. Every case \
+        over the same bases against direct f64 convolution and against the FIR output; IIR recurrence, Hilbert identity, FM demodulator identities (QuadratureDemod, FastFM) on phasors, sign-changing \
+        real signals and silence, low-pass symmetry and DC gain for four windows x rate/cutoff/width grid; FftStream against an O(n^2) DFT. Every case \
         is distinct and non-trivial. The floating-point input space itself is not enumerable: impulse x unit-tap bases are \
         complete for bilinear implementations, the small alphabet is there for the others."
         .into();
